@@ -35,7 +35,7 @@ ASSUMPTIONS = [
     "Biopython's SimpleLocation/CompoundLocation are trusted for start/end/parts/strand/len.",
 ]
 REQUIRED = ["op:overlap", "op:contains", "op:distance_ring", "op:distance_line", "op:connect_ring",
-            "op:connect_line", "op:offset_ring", "op:offset_line", "op:extend_ring", "op:extend_line",
+            "op:connect_line", "op:extend_ring_two_parts_origin_in_gap", "op:offset_ring", "op:offset_ring_beyond_one_turn", "op:offset_line", "op:extend_ring", "op:extend_line",
             "op:roundtrip_string", "op:bridges", "op:make_forwards", "op:remove_redundant",
             "op:build_from_others", "op:lt", "class:build-from-compound-operands",
             "class:connect-single-multi-part-location", "op:extend_frameshift"]
@@ -165,6 +165,8 @@ def oracle_connect(ctx, locations, wrap, result, case=None, again=None):
 
 def oracle_offset(ctx, loc, offset, wrap, result, case=None):
     ctx.count("op:offset_ring" if wrap else "op:offset_line")
+    if wrap and abs(offset) > wrap:
+        ctx.count("op:offset_ring_beyond_one_turn")
     case = case or {"loc": _s(loc), "offset": offset, "wrap": wrap}
     facts = _facts(wrap or None, loc, offset=offset, result=_s(result))
     src = ring.parts_of(loc)
@@ -438,7 +440,8 @@ def exhaustive(ctx, lengths):
                 oracle_string_roundtrip(ctx, loc)
                 oracle_bridges(ctx, loc, length)
                 oracle_make_forwards(ctx, loc)
-                for off in range(-length, length + 1):
+                # every offset up to a turn either way, and on to more than three turns ("all offsets")
+                for off in range(-3 * length - 2, 3 * length + 3):
                     case = {"op": "offset", "loc": G.to_case(loc), "offset": off, "wrap": length}
                     ok, res = _call(ctx, "offset-crash", case, L.offset_location, loc, off, wrap_point=length)
                     if ok:
@@ -458,6 +461,16 @@ def exhaustive(ctx, lengths):
                         ok, res = _call(ctx, "extend-crash", case, lin_rec.extend_location, loc, dist)
                         if ok:
                             oracle_extend(ctx, loc, dist, length, False, res, case)
+        # two parts with the origin in the gap between them (a gene whose intron holds the origin)
+        for parts in G.all_gapped(length):
+            for loc in _strand_variants(parts):
+                ctx.case(("gapped", length, _s(loc)), nontrivial=True)
+                for dist in range(0, length + 3):
+                    case = {"op": "extend", "loc": G.to_case(loc), "distance": dist, "L": length, "circular": True}
+                    ok, res = _call(ctx, "extend-crash", case, circ_rec.extend_location, loc, dist)
+                    if ok:
+                        ctx.count("op:extend_ring_two_parts_origin_in_gap")
+                        oracle_extend(ctx, loc, dist, length, True, res, case)
         # binary operations
         every = simple + bridging
         for pa in every:
